@@ -118,6 +118,30 @@ def gen_case(rng, quick=True):
     return c
 
 
+FINDING_PROGS = {
+    "C1048576:4194304,X0,f120000:0,C1600000:0,E4194304": "C11-ldm-wait-after-worker-error",
+    "f100000:0,X1,C3600000:1,E4194304": "C11-serial-turn-skipped-after-error",
+    "C1048576:4194304,X0,c100000:0,C3600000:100,E4194304": "C11-serial-turn-skipped-after-error",
+}
+FINDING_PROGS_INV = {}
+for _k, _v in FINDING_PROGS.items():
+    FINDING_PROGS_INV.setdefault(_v, _k)
+
+
+def finding_cases():
+    """The exact schedules (family + seed) on which the two repaired findings deadlock on a tree without fix e0108a3 (re-found after every
+    change of the protocol: a seeded schedule depends on the number of synchronisation operations)."""
+    T = 512 * 1024
+    return [
+        Case(nbw=1, jobsize=T, ovlog=9, ldm=1, wlog=20, kind=3, cksum=1, isize=4194304, prog="C1048576:4194304,X0,f120000:0,C1600000:0,E4194304",
+             policy="r", fam=5, famarg=0, seed=12240310889, stay=50, tag="ldm-error-window-exact"),
+        Case(nbw=2, jobsize=T, ovlog=1, ldm=1, wlog=21, kind=3, cksum=1, isize=4194304, prog="f100000:0,X1,C3600000:1,E4194304",
+             policy="r", fam=7, famarg=0, seed=483246024224, stay=90, tag="ldm-error-turn-exact"),
+        Case(nbw=2, jobsize=T, ovlog=9, ldm=1, wlog=21, kind=1, cksum=0, isize=6291456, prog="C1048576:4194304,X0,c100000:0,C3600000:100,E4194304",
+             policy="r", fam=7, famarg=0, seed=310856819364, stay=0, tag="ldm-error-turn-exact2"),
+    ]
+
+
 def corpus(rng):
     """Boundary cases (run first): where the model splits cases."""
     C = []
@@ -172,6 +196,14 @@ def corpus(rng):
     C.append(Case(nbw=3, jobsize=512 * 1024, isize=6 * MB, prog="c1600000:0,R,W1,E4194304", tag="abort-resize-down"))
     # progress queries between the calls
     C.append(Case(nbw=2, jobsize=512 * 1024, isize=3 * MB, probe=1, prog="c700000:1000,c700000:100000,f300000:5000,c1000000:4194304,E65536", tag="progress"))
+    # repaired findings (fix e0108a3), must stay repaired: a worker-side failure with LDM while the application gives no output space.
+    # (1) ZSTDMT_serialState_ensureFinished did not clear ldmState.window: the next job republished a window that still covered the data
+    #     before the failed job and the caller waited on ldmWindowCond for ever (key C11-ldm-wait-after-worker-error);
+    # (2) ZSTDMT_serialState_update advanced serial.nextJobID even when the turn had been skipped: every later job arrived one behind, no
+    #     job ever had its turn again and the window never moved (key C11-serial-turn-skipped-after-error)
+    C.append(Case(nbw=1, jobsize=512 * 1024, ovlog=9, ldm=1, wlog=20, kind=3, isize=4194304, prog=FINDING_PROGS_INV["C11-ldm-wait-after-worker-error"], tag="ldm-error-window"))
+    C.append(Case(nbw=2, jobsize=512 * 1024, ovlog=1, ldm=1, wlog=21, kind=3, cksum=1, isize=4194304, prog=FINDING_PROGS_INV["C11-serial-turn-skipped-after-error"], tag="ldm-error-turn"))
+    C.append(Case(nbw=2, jobsize=512 * 1024, ovlog=9, ldm=1, wlog=20, kind=3, isize=4194304, prog="C1048576:4194304,F4194304,X1,f120000:0,C1600000:0,E4194304", tag="ldm-error-window-2w"))
     # stage error: continue after the frame ended
     C.append(Case(nbw=2, jobsize=512 * 1024, isize=2 * MB, prog="e1000000:100,c1000:1000,E4194304,E4194304", tag="continue-after-end"))
     out = []
@@ -181,7 +213,7 @@ def corpus(rng):
             out.append(c.clone(policy="r", fam=fam, famarg=arg, seed=rng.getrandbits(40)))
         out.append(c.clone(policy="r", fam=1, famarg=3, seed=rng.getrandbits(40)))
         out.append(c.clone(policy="r", fam=0, stay=rng.choice([0, 50, 90]), seed=rng.getrandbits(40)))
-    return out
+    return out + finding_cases()
 
 
 # --------------------------------------------------------------------------
@@ -267,6 +299,7 @@ def build_model_case(tr):
     probe = False
     pend_on = pend_off = False
     early_done = {}    # tid -> its current serial section was already stepped at the inner unlock of ldmWindowMutex
+    last_c = None      # the ZSTD_compressStream2 call whose return value is awaited
     for ln in tr.lines:
         if stop:
             break
@@ -286,8 +319,10 @@ def build_model_case(tr):
                 after_init_marker = True
                 seen_one = last_alldone == "1"
             elif t[1] == "cs":
+                last_c = None
                 if not st_frame:
-                    ops.append(["C", t[2], t[3], t[4]])
+                    last_c = ["C", t[2], t[3], t[4], None]
+                    ops.append(last_c)
             elif t[1] == "workers":
                 unmodelled = "nbWorkers changed between frames (POOL_resize is outside the model)"
         elif ln.startswith("INITP "):
@@ -304,6 +339,10 @@ def build_model_case(tr):
                 pending_init = None
             st_frame = True
             after_init_marker = False
+        elif ln.startswith("RET "):
+            if last_c is not None:
+                last_c[4] = "E" if ln.startswith("RET E") else ln.split()[1]
+                last_c = None
         elif ln.startswith("FAULT"):
             fault_pending = int(ln.split()[1])
         elif ln == "PROBE begin":
@@ -375,7 +414,9 @@ def build_model_case(tr):
                         secs = jobsec[tid]
                     else:
                         secs.append(name)
-                    if name.startswith("J"):
+                    if name.startswith("J") and "S" not in secs and st["jobs"][int(name[1:])].split(":")[6] != "E":
+                        pass      # the job_mutex section that publishes job->dstBuff (before the serial section): no payload information
+                    elif name.startswith("J"):
                         k = int(name[1:])
                         jf = st["jobs"][k].split(":")
                         key = (frame, int(jf[0]))
@@ -396,7 +437,7 @@ def build_model_case(tr):
                                     else:
                                         p["err"] = "init"
                                 else:
-                                    nj = len([x for x in secs if x.startswith("J")]) - 1
+                                    nj = len([x for x in secs[secs.index("S") + 1:] if x.startswith("J")]) - 1
                                     if nj + 1 < nchunks:
                                         p["err"] = "chunk%d" % (nj + 1)
                                     else:
@@ -444,14 +485,18 @@ def build_model_case(tr):
     out = ["CFG %s %s %s %s" % (cfg["nbw"], cfg["rlog"], cfg["chunk"], cfg["minblk"])]
     for (f, i), p in sorted(pays.items()):
         out.append("PAY %d %d %s %s %d %s" % (f, i, p["err"], ".".join(map(str, p["chunks"])) or "-", p["last"], p["win"]))
+    rets = []          # expected result of every operation of the model's call program (None = the call did not return in the run)
     for o in ops:
         if o[0] == "I":
             if o[1] is None:
                 break
             kv = o[1]
             out.append("OPI %s %s %s %s %s %s %s" % (kv["target"], kv["prefix"], kv["cksum"], kv["ldm"], kv["rsync"], kv["wsize"], kv["hits"]))
+            rets.append("0")
         else:
             out.append("OPC %s %s %s" % (o[1], o[2], o[3]))
+            rets.append(o[4])
+    info["rets"] = rets
     out.append("RUN")
     for tid, w in steps:
         out.append("STEP %d %d" % (tid, w))
@@ -497,6 +542,8 @@ def compare(cst, mst, skip_win=False, skip_t0=False):
             diffs.append("serial.nextJobID impl=%s model=%s" % (cst["ser"][0], mst["ser"][0]))
         if oL == "-1" and not skip_win and cst["ser"][1] != mst["ser"][1]:
             diffs.append("serial.ldmWindow impl=%s model=%s" % (cst["ser"][1], mst["ser"][1]))
+        if not skip_win and len(cst["ser"]) > 2 and len(mst["ser"]) > 2 and cst["ser"][2] != mst["ser"][2]:
+            diffs.append("serial.ldmState.window impl=%s model=%s" % (cst["ser"][2], mst["ser"][2]))
     cp, mp = cst["pool"], mst["pool"]
     if oP == "-1":
         if cp[0] != mp[0]:
@@ -517,10 +564,12 @@ def compare(cst, mst, skip_win=False, skip_t0=False):
                 continue
             if i == 3 and cf[4] == "0":
                 continue
-            if i in (5, 6, 12) and jown[k] != "-1":
-                continue
+            if i in (5, 6, 7, 12) and jown[k] != "-1":
+                continue        # consumed, cSize, dstBuff (written under job_mutex since d04f829), jobCompleted: the job mutex is held
             if cf[i] != mf[i]:
                 diffs.append("jobs[%d].%s impl=%s model=%s" % (k, n, cf[i], mf[i]))
+    if "fl" in cst and "fl" in mst and cst["fl"] != mst["fl"]:
+        diffs.append("flush log (copies, bytes, last job:offset:length) impl=%s model=%s" % (" ".join(cst["fl"]), " ".join(mst["fl"])))
     owners = {"S": oS, "L": oL, "B": oB, "C": oC, "Q": oQ, "P": oP}
     for t, (ct, mt_) in enumerate(zip(cst["th"], mst["th"])):
         if mt_ == "X" or (t == 0 and skip_t0):
@@ -604,7 +653,7 @@ def process_chunk(args):
                 # up to its first lock: the implementation's state lags until the query is over)
                 continue
             mst = split_state(m)
-            if "-2" in cst["ser"][1]:
+            if "-2" in cst["ser"][1] or (len(cst["ser"]) > 2 and "-2" in cst["ser"][2]):
                 info["skip_win"] = True      # LDM window refers to memory outside the round buffer (dictionary): addresses not modelled
             d = compare(cst, mst, skip_win=info.get("skip_win", False), skip_t0=(len(ck) > 4 and ck[4]))
             if d:
@@ -612,6 +661,14 @@ def process_chunk(args):
                 break
             pcs.update(mst["th"])
             pcs.add("r%s" % mst["mt"][2])
+        # return value of every completed ZSTD_compressStream2 call (mt_error_propagates and the hints): the model's c_res
+        if r["diff"] is None and r["final"] and " res=" in r["final"]:
+            mres = [x for x in r["final"].split(" res=", 1)[1].strip().split(",") if x != ""]
+            for k, (a, b) in enumerate(zip(info.get("rets", []), mres)):
+                if a is not None and a != b:
+                    r["diff"] = "operation %d of the call program returned impl=%s model=%s" % (k, a, b)
+                    break
+            r["nres"] = min(len(mres), len([a for a in info.get("rets", []) if a is not None]))
         r["sig"] = ",".join(sorted(pcs))
         r["pays"] = {"%d/%d" % k: v["err"] for k, v in info.get("pays", {}).items() if v["err"] != "-"}
     return results
@@ -690,6 +747,10 @@ def report(ctx, runner, results, tag):
             continue
         seen.add(sig)
         replay = dict(kind="schedule", config=cfgs, variant=runner.variant, tag=tag, observed=dict(end=end, oracles=r["oracles"][:3], first_difference=r["diff"]))
+        key = FINDING_PROGS.get(c.prog)
+        if key and not bad[1]:
+            ctx.violation(replay, what=bad[0][:400], key=key)
+            continue
         if bad[1]:
             found = search(ctx, runner, c)
             if found:
